@@ -1000,7 +1000,8 @@ CLUSTER_MEANING = {"gg1": {"gg": [["a", "#"]], "lw": []}, "gg2": {"gg": [["b"], 
 
 
 def cluster_scenarios(tier, rnd, promote):
-    keys = [["a"], ["a", "b"], ["b"], ["k", "cas"], ["k", "x"], ["n"]]
+    # (the last two are ordinary user keys that merely look like the system prefix)
+    keys = [["a"], ["a", "b"], ["b"], ["k", "cas"], ["k", "x"], ["n"], ["$SYSTEM", "load"], ["$SYSx"]]
     n = (6 if tier == "quick" else 120)
     scs = []
     for _ in range(n):
@@ -1028,7 +1029,7 @@ def cluster_scenarios(tier, rnd, promote):
             elif r < 0.53:
                 q = {"op": "delete", "key": k, "c": c}
             elif r < 0.6:
-                q = {"op": "pdelete", "pat": rnd.choice([["a", "#"], ["k", "?"], ["?"], ["a", "?"]]), "c": c}
+                q = {"op": "pdelete", "pat": rnd.choice([["a", "#"], ["k", "?"], ["?"], ["a", "?"], ["$SYSTEM", "?"]]), "c": c}
             elif r < 0.68:
                 q = {"op": "set", "key": ["$SYS", "clients", c, "graveGoods"], "val": rnd.choice(["gg1", "gg2"]), "c": c}
             elif r < 0.76:
